@@ -40,7 +40,7 @@ CLAIMED = {
  "C17": C(MC, "Generated parameter lists (0-2 items quick / 3 thorough from 25 item forms, LWS at every legal gap with <= 2 non-empty, empty items, leading/trailing separators) x 25 modes (separator x terminator x URI-param/URI-hdr x entry point incl. the list wrappers): items, intermediate and final verdict/offset, counts, types by construction; all 256 byte values in name and value positions per mode; GetViaBrSig depends only on the first branch value.",
    "PTokParam.All only required to cover name and value inside the item; zero-item lists asserted for end-of-header/end-of-input only.", T_E4, "DESIGN.md 3/C17"),
  "C18": C(MC, "Every accepted URI of the bounded space (length <= 5/6 after the scheme, plus the C15 family) x source offset {0,9} x target offsets {0,1,7,255,256,limit} x every span 0..len+3 through AdjustOffs (thorough: every target offset for 100 URIs), plus Long/Short/Flat/Truncate.",
-   "Known finding: tel: URIs written with userinfo (see known_findings.json).", T_E4, "DESIGN.md 3/C18"),
+   "URI space bounded as stated; relocations thinned for the longest strings (views checked for all).", T_E4, "DESIGN.md 3/C18"),
  "C19": C(MC, "Generated requests (4 methods x all 256 subsets of the 8 fingerprinted headers x orderings x long/compact forms) with fillers in every gap, changed filler values, later repetition of each fingerprinted header, every header capacity 0..N+1 and single cuts: signature by construction and equal to the base variant; replies (incl. status 000), truncation, length and rendering rules.",
    "From-tag class signature is checked metamorphically; all schedules follow from C01.", T_E4, "DESIGN.md 3/C19"),
  "C20": C(MC, "Every string over 1 2 5 6 . x up to length 10 (12 thorough) and over 1 . x up to 16 (18), plus (near-)valid addresses embedded in all surroundings of up to 5 (6) bytes from 1 9 . x, through IP4Prefix / ContainsIP4 / GetCallIDSig against a brute-force substring reference and a reference prefix scanner.",
